@@ -29,7 +29,7 @@ Definition pbind {A B : Type} (r : presult A) (f : A -> toks -> presult B) : pre
   | PErr l m => PErr l m
   end.
 
-Notation "'do*' x , t <- e ; f" := (pbind e (fun x t => f))
+Local Notation "'do*' x , t <- e ; f" := (pbind e (fun x t => f))
   (at level 200, x name, t name, e at level 100, f at level 200).
 
 Definition peek (ts : toks) : token := match ts with (t, _) :: _ => t | [] => TEof end.
